@@ -1,2 +1,56 @@
-(* C11 — placeholder while the model is validated; theorems follow *)
+(* C11 — annealers return well-formed results whose values match their states.
+   Statements only; proofs in Proofs/AnnealProofs.v.
+
+   The C kernels are modelled on lists (Model/Anneal.v): quso_flatten / puso_flatten are the arrays _anneal.py builds from
+   the enumerated model t, c_anneal_quso / c_anneal_puso are the entry points of the extension, package adds labels and
+   the offset.  E_puso (puso_flatten t) s is the model without its constant evaluated at the spin list s. *)
 From QV.Model Require Import Base Matrix Convert Reduce Anneal.
+From QV.Proofs Require Import BaseProofs AnnealProofs.
+Open Scope Q_scope.
+
+(* a call of the quadratic kernel: exactly n results; every state has one entry +-1 per spin; the reported value is the
+   model's energy at the returned state (for every schedule, initial state, visiting order, seed, and table of exp values) *)
+Theorem C11_quso_kernel : forall N t tab Ts n io init seed res,
+  qvalid N t -> NoDup (map fst t) ->
+  c_anneal_quso (quso_flatten N t) tab Ts n io init seed = Some res ->
+  match init with Some si => length si = N /\ pm1 si | None => True end ->
+  let E := E_puso (puso_flatten t) in
+  length res = n /\
+  forall s v, In (s, v) res ->
+    length s = N /\ pm1 s /\ v == E s /\ (all_zero Ts -> forall si, init = Some si -> E s <= E si).
+Proof. exact c_anneal_quso_spec. Qed.
+Print Assumptions C11_quso_kernel.
+
+(* the same for the general kernel *)
+Theorem C11_puso_kernel : forall len a tab Ts n io init seed res,
+  nodup_keys a ->
+  c_anneal_puso len a tab Ts n io init seed = Some res ->
+  match init with Some si => length si = len /\ pm1 si | None => True end ->
+  length res = n /\
+  forall s v, In (s, v) res ->
+    length s = len /\ pm1 s /\ v = E_puso a s /\ (all_zero Ts -> forall si, init = Some si -> E_puso a s <= E_puso a si).
+Proof. exact c_anneal_puso_refined. Qed.
+Print Assumptions C11_puso_kernel.
+
+(* kernel value + offset = the enumerated model evaluated at the state, constant term included *)
+Theorem C11_value_with_offset : forall t s, NoDup (map fst t) -> E_puso (puso_flatten t) s + get_sq t [] == eval (env_of s) t.
+Proof. exact value_with_offset. Qed.
+Print Assumptions C11_value_with_offset.
+
+(* the front end returns one labelled state per kernel result, over spins 0..N-1 through the reverse mapping, value + offset *)
+Theorem C11_package : forall p res, length (package p res) = length res /\
+  forall st v, In (st, v) (package p res) -> exists s v0, In (s, v0) res /\ v = v0 + get_sq (p_model p) [] /\
+    st = map (fun k => (match assoc_get k (p_rmp p) with Some l => l | None => k end, nth k s 0%Z)) (seq 0 (p_N p)).
+Proof. exact package_spec. Qed.
+Print Assumptions C11_package.
+
+(* the arrays built from a valid quadratic model are well formed: sizes, indices in range, no self coupling, symmetric *)
+Theorem C11_arrays : forall N t, qvalid N t -> args_ok (quso_flatten N t) N.
+Proof. exact flatten_ok. Qed.
+Print Assumptions C11_arrays.
+
+(* non-vacuity: two anneals of z0 z1 - z1 z2 + z0 (+ offset 5) at temperature zero from (1,1,1) *)
+Example C11_example :
+  exists l, run_spin true (SrcDict [([0; 1]%nat, 1); ([1; 2]%nat, -(1)); ([0]%nat, 1); ([], 5)]) [] [0; 0] 2 true
+                     (Some [(0%nat, 1%Z); (1%nat, 1%Z); (2%nat, 1%Z)]) 7 = AResults l /\ length l = 2%nat.
+Proof. eexists. vm_compute. split; reflexivity. Qed.
